@@ -97,6 +97,12 @@ def run(e: Engine, rep: Report):
              '`!` (or `>`) - without it the host\'s byte order decides what '
              'length is read')
     v8(e, rep)
+    rep.rule('V9', 'the v1 line is taken apart only when it is framed: where '
+             'parse_pp_line cuts `PROXY ` and the CRLF off the line, both '
+             'startswith(b"PROXY ") and endswith(b"\\r\\n") have been '
+             'established on the path (a line with a corrupted signature is '
+             'otherwise accepted - six bytes are cut off whatever they are)')
+    v9(e, rep)
     rep.floor('V1', 4, 'recv_into sites')
 
 
@@ -804,7 +810,7 @@ def v3(e: Engine, rep: Report):
     pctx = e.method_ctx(V2, '__parse_pp_data')
     for n in walk_own(pctx.func.node):
         if isinstance(n, ast.Compare) and len(n.ops) == 1 and \
-                isinstance(n.ops[0], ast.Eq):
+                isinstance(n.ops[0], (ast.Eq, ast.NotEq)):
             for side in (n.left, n.comparators[0]):
                 v = bytes_const(side, pctx.func)
                 if v is not None and len(v) == 12:
@@ -1240,3 +1246,55 @@ def v8(e: Engine, rep: Report):
                   reason='starts with `!`' if multi else 'single bytes only')
     if n < 3:
         rep.error('anchor vanished: struct formats of %s (%d < 3)' % (MOD, n))
+
+
+# ---------------------------------------------------------------------- V9
+def v9(e: Engine, rep: Report):
+    from . import common
+    ctx = e.method_ctx(V1, 'parse_pp_line')
+    g = e.build(ctx, raises=lambda b, n, r: set(),
+                inline=e.inline_same_self(), max_depth=3)
+    fx = e.facts(g)
+    where = ctx.func.qname
+    rep.functions.add(where)
+    lp = ctx.func.params[-1]
+    n = 0
+    for st in g.of_kind('stmt'):
+        if not isinstance(st.ast, ast.Assign):
+            continue
+        for x in ast.walk(st.ast.value):
+            if not (isinstance(x, ast.Subscript) and
+                    isinstance(x.slice, ast.Slice) and
+                    isinstance(x.value, ast.Name) and
+                    isinstance(x.slice.lower, ast.Constant) and
+                    x.slice.lower.value == 6):
+                continue
+            base, bfr = common.origin(g, x.value, st.frame,
+                                      follow_locals=False)
+            if not (isinstance(base, ast.Name) and base.id == lp and
+                    bfr is g.entry.frame) and x.value.id != lp:
+                continue
+            n += 1
+            rep.evaluations += 1
+            atoms = fx.at(st) or frozenset()
+            has_pre = any(p and '.startswith(' in k and 'PROXY ' in k
+                          for p, k in atoms)
+            has_end = any(p and '.endswith(' in k and '\\r\\n' in k
+                          for p, k in atoms)
+            rep.check(has_pre and has_end, 'V9', where,
+                      '`%s` only for a framed line' % st.text(40),
+                      'parse_pp_line cuts the first six bytes and the last '
+                      'two off the line without both %s having been '
+                      'established: a line whose signature is not `PROXY ` '
+                      '(but that ends in CRLF) is parsed as if it were - '
+                      'the address of a corrupted header is accepted and '
+                      'handed to the application' % ' and '.join(
+                          [w for w, ok in (('startswith(b"PROXY ")', has_pre),
+                                           ('endswith(CRLF)', has_end))
+                           if not ok] or ['tests']), loc=st.loc(),
+                      reason='both tests dominate the cut')
+    rep.evaluations += 1
+    if n == 0:
+        rep.ok('V9', where, 'no fixed-offset cut of the line',
+               reason='parse_pp_line does not slice the line at [6:...]',
+               nontrivial=False)
